@@ -304,7 +304,9 @@ func c20DialAddr(sw *Swarm, d *blackHoleDetector, a ma.Multiaddr, scenario int) 
 		sw.transports.m = saved
 		sw.transports.Unlock()
 	}()
-	sw.bhd = d
+	if d != nil {
+		sw.bhd = d
+	}
 	ctx, cancelCause := context.WithCancelCause(context.Background())
 	cancel := func() { cancelCause(context.Canceled) }
 	defer cancel()
@@ -325,7 +327,7 @@ func c20DialAddr(sw *Swarm, d *blackHoleDetector, a ma.Multiaddr, scenario int) 
 	return f.dials > 0
 }
 
-func c20Detector(out *verifh.Out, r *verifh.Rand, length int, sw *Swarm) {
+func c20Detector(out *verifh.Out, r *verifh.Rand, length int, sw *Swarm, mkSw func(udp, ip6 *BlackHoleSuccessCounter, ro bool) *Swarm) {
 	mk := func() (*BlackHoleSuccessCounter, int64, int64) {
 		if r.Chance(1, 6) {
 			return nil, 0, 0
@@ -340,6 +342,26 @@ func c20Detector(out *verifh.Out, r *verifh.Rand, length int, sw *Swarm) {
 	dets := [2]*blackHoleDetector{
 		{udp: udp, ipv6: ip6, readOnly: false},
 		{udp: udp, ipv6: ip6, readOnly: true},
+	}
+	// either one shared swarm whose detector is swapped per operation, or two swarms built
+	// by NewSwarm with the black-hole options (what a node does: main swarm + read-only dialer
+	// swarm sharing the counters); then the detectors are the ones NewSwarm wired
+	sws := [2]*Swarm{sw, sw}
+	assign := true
+	if mkSw != nil {
+		sws = [2]*Swarm{mkSw(udp, ip6, false), mkSw(udp, ip6, true)}
+		defer sws[0].Close()
+		defer sws[1].Close()
+		dets = [2]*blackHoleDetector{sws[0].bhd, sws[1].bhd}
+		assign = false
+		sw = sws[0]
+		out.Cover("detector.cases_swarms_built_with_options")
+	}
+	use := func(ro int) *Swarm {
+		if assign {
+			sws[ro].bhd = dets[ro]
+		}
+		return sws[ro]
 	}
 	line := []int64{1, un, um, vn, vm}
 	removedAny, usedRO, roAfterBlocked := false, false, false
@@ -363,9 +385,16 @@ func c20Detector(out *verifh.Out, r *verifh.Rand, length int, sw *Swarm) {
 			cnt := r.Intn(7)
 			addrs := make([]ma.Multiaddr, 0, cnt)
 			cls := make([]int64, 0, cnt)
+			var noise []ma.Multiaddr
 			for j := 0; j < cnt; j++ {
 				t := c20Tmpls[r.Intn(len(c20Tmpls))]
 				for viaSwarm && !c20SwarmOK(t) {
+					// an address the swarm has no transport for is dropped before the black hole
+					// filter: it is passed along but is not part of the request
+					if a := c20Addr(t, 1000+j); sw.TransportForDialing(a) == nil && r.Chance(1, 2) {
+						noise = append(noise, a)
+						out.Cover("detector.op.filter_via_swarm_with_undialable_noise")
+					}
 					t = c20Tmpls[r.Intn(len(c20Tmpls))]
 				}
 				addrs = append(addrs, c20Addr(t, 1000+j))
@@ -375,8 +404,8 @@ func c20Detector(out *verifh.Out, r *verifh.Rand, length int, sw *Swarm) {
 			copy(in, addrs)
 			var fl c20Flags
 			if viaSwarm {
-				sw.bhd = d
-				good, errs := sw.filterKnownUndialables("somepeer", in)
+				in = append(in, noise...)
+				good, errs := use(ro).filterKnownUndialables("somepeer", in)
 				var bh []ma.Multiaddr
 				for _, e := range errs {
 					if e.Cause == ErrDialRefusedBlackHole {
@@ -408,14 +437,17 @@ func c20Detector(out *verifh.Out, r *verifh.Rand, length int, sw *Swarm) {
 			for !c20SwarmOK(t) {
 				t = c20Tmpls[r.Intn(len(c20Tmpls))]
 			}
-			sw.bhd = d
-			ok := sw.CanDial("somepeer", c20Addr(t, 1000))
+			ok := use(ro).CanDial("somepeer", c20Addr(t, 1000))
 			line = append(line, 16, int64(ro), t.cls, c20b(ok))
 			out.Cover("detector.op.candial")
 		case k >= 12: // Swarm.dialAddr with a scripted transport
 			t := c20Tmpls[r.Intn(len(c20Tmpls))]
 			scenario := r.Intn(7)
-			dialed := c20DialAddr(sw, d, c20Addr(t, 9), scenario)
+			dd := d
+			if !assign {
+				dd = nil
+			}
+			dialed := c20DialAddr(sws[ro], dd, c20Addr(t, 9), scenario)
 			if dialed != (scenario <= 1 || scenario >= 5) {
 				out.Comment(fmt.Sprintf("dialAddr scenario %d: transport dialed = %v", scenario, dialed))
 				out.Cover("detector.dialaddr_scenario_unexpected")
@@ -529,8 +561,23 @@ func TestVerifC20(t *testing.T) {
 	}
 	sw := makeSwarmWithNoListenAddrs(t)
 	defer sw.Close()
+	mkSw := func(udp, ip6 *BlackHoleSuccessCounter, ro bool) *Swarm {
+		opts := []Option{WithUDPBlackHoleSuccessCounter(udp), WithIPv6BlackHoleSuccessCounter(ip6)}
+		if ro {
+			opts = append(opts, WithReadOnlyBlackHoleDetector())
+		}
+		return makeSwarmWithNoListenAddrs(t, opts...)
+	}
+	nopt := 120
+	if thorough {
+		nopt = 1500
+	}
 	for i := 0; i < nd; i++ {
-		c20Detector(out, r, 5+r.Intn(40), sw)
+		if i < nopt {
+			c20Detector(out, r, 5+r.Intn(40), sw, mkSw)
+		} else {
+			c20Detector(out, r, 5+r.Intn(40), sw, nil)
+		}
 	}
 }
 
